@@ -411,6 +411,20 @@ class SymPairSeq:
     def __iter__(self):
         return SymPairIter(self)
 
+    def __add__(self, other):
+        """concatenation of two pair sequences: a SymPairList defined element-wise by quantified facts"""
+        if not isinstance(other, SymPairSeq):
+            raise Undecided("concatenation of a symbolic pair sequence with %r" % type(other))
+        c = ctx()
+        r = SymPairList("cat", c)
+        k = z3.Int("cat!k")
+        c.assume(r.n == self.n + other.n)
+        c.assume(z3.ForAll([k], z3.Implies(z3.And(k >= 0, k < self.n), z3.And(z3.Select(r.lo, k) == z3.Select(self.lo, k),
+                                                                            z3.Select(r.hi, k) == z3.Select(self.hi, k)))))
+        c.assume(z3.ForAll([k], z3.Implies(z3.And(k >= 0, k < other.n), z3.And(z3.Select(r.lo, self.n + k) == z3.Select(other.lo, k),
+                                                                             z3.Select(r.hi, self.n + k) == z3.Select(other.hi, k)))))
+        return r
+
 
 class SymPairIter:
     def __init__(self, seq):
@@ -465,3 +479,58 @@ class bisect_proxy:
         return SymInt(i)
 
     bisect_right = bisect
+
+
+class StarOf:
+    """sentinel yielded when a SymPairList is star-expanded in a call: f(*lst) reaches f as f(StarOf(lst))"""
+
+    def __init__(self, lst):
+        self.lst = lst
+
+
+class SymPairList:
+    """A mutable list of (lo, hi) pairs of symbolic length (arrays + length); supports append.  Star-expanding it
+    (`f(*lst)`) passes a single StarOf sentinel, so that a contract stub of f can take the whole list."""
+
+    def __init__(self, name, c=None):
+        c = c or ctx()
+        self.lo = z3.Array(c.fresh_name(name + ".lo"), z3.IntSort(), z3.IntSort())
+        self.hi = z3.Array(c.fresh_name(name + ".hi"), z3.IntSort(), z3.IntSort())
+        self.n = z3.Int(c.fresh_name(name + ".n"))
+        c.assume(self.n >= 0)
+
+    def append(self, pair):
+        lo, hi = pair
+        self.lo = z3.Store(self.lo, self.n, as_z3_int(lo))
+        self.hi = z3.Store(self.hi, self.n, as_z3_int(hi))
+        self.n = self.n + 1
+
+    def _sym_len(self):
+        return mk(self.n)
+
+    def __iter__(self):
+        return iter([StarOf(self)])
+
+
+def pairs_of(x):
+    """(lo array-or-None, hi, n, native list) view of SymPairSeq / SymPairList / native list of pairs"""
+    if isinstance(x, (SymPairSeq, SymPairList)):
+        return x.lo, x.hi, x.n
+    lo = z3.K(z3.IntSort(), z3.IntVal(0))
+    hi = z3.K(z3.IntSort(), z3.IntVal(0))
+    for k, (a, b) in enumerate(x):
+        lo = z3.Store(lo, k, as_z3_int(a))
+        hi = z3.Store(hi, k, as_z3_int(b))
+    return lo, hi, z3.IntVal(len(x))
+
+
+_VK = [0]
+
+
+def in_view(x, pairs, start=0):
+    """z3 Bool: x lies in one of pairs[start:]"""
+    lo, hi, n = pairs_of(pairs)
+    _VK[0] += 1
+    k = z3.Int("vk!%d" % _VK[0])
+    xe = as_z3_int(x)
+    return z3.Exists([k], z3.And(k >= as_z3_int(start), k < n, z3.Select(lo, k) <= xe, xe <= z3.Select(hi, k)))
